@@ -465,6 +465,27 @@ def shrink(case):
                 yield c[:2] + [["bytes=" + ",".join(items[:i] + items[i + 1:])]] + c[3:]
 
 
+# ---------------------------------------------------------------- the source-level tie (tools/py2coq_c02.py)
+
+
+def extra_obligations(tier):
+    """judge_if_range, generate_multipart and generate_common_headers of FileResponseMixin are translated to Gallina, one by one,
+    from the source in BAIZE_REPO as it is now (generate_etag, formatdate(.., usegmt=True), int(st_mtime), os.path.basename and
+    quote are arguments of the generated code), and coqc re-checks, per function, the part of C02/Translated.v about it
+    against the fresh definition: the If-Range decision is C02.Model.judge_if_range for every header value and validator pair;
+    the multipart content length is C02.Model.multipart_length and the per-part header is C02.Model.part_header (Latin-1
+    encoded) for every boundary, content type, size and range list with start <= end, 1 <= end; the headers dict is
+    C02.Model.common_headers with the disposition written out in Translated.v (the one mk() computes).  One obligation per
+    function: a function the translator refuses (not applicable, no alarm) does not hide the others.  C02/PyLib.v (str(int),
+    sum, encode("latin-1")) and Lib/PyStr.v are compared with the running interpreter by evaluation inside coqc."""
+    import importlib.util
+    import os
+    spec = importlib.util.spec_from_file_location("py2coq_c02", os.path.join(core.VERIF, "tools", "py2coq_c02.py"))
+    mod = importlib.util.module_from_spec(spec)
+    spec.loader.exec_module(mod)
+    return mod.obligations(core.REPO, core.VERIF)
+
+
 if __name__ == "__main__":
     import sys
     core.main(sys.modules[__name__])
